@@ -53,6 +53,8 @@ TTopo == /\ IsEvent("Topo")
                    /\ (IF e.kind = "X" THEN slots.lib.xmlret ELSE slots.lib.synret) = 0 =>
                         /\ e.ok = 1
                         /\ IF e.kind = "X" THEN TopoView(e.topo) = TopoView(slots.lib.topo)
+                           \* HWLOC_TOPOLOGY_EXPORT_SYNTHETIC_FLAG_IGNORE_MEMORY (8): only the CPU hierarchy is described
+                           ELSE IF (slots.lib.synf \div 8) % 2 = 1 THEN PUView(e.topo) = PUView(slots.lib.topo)
                            ELSE SynView(e.topo) = SynView(slots.lib.topo)
          /\ last' = NoLast
 
